@@ -12,6 +12,7 @@ import (
 	"sort"
 	"strings"
 	"sync"
+	"sync/atomic"
 	"time"
 
 	"github.com/rminnich/go9p"
@@ -85,6 +86,7 @@ func c10Cases(tier string, seed int64) []core.Case {
 	cases = append(cases, core.Case{ID: "oversize-after-lower-negotiation", Run: func(ctx *core.Ctx) core.Result { return c10NegotiatedDown(ctx) }})
 	cases = append(cases, core.Case{ID: "shared-completion-channel", Run: func(ctx *core.Ctx) core.Result { return c10SharedDone(ctx) }})
 	cases = append(cases, core.Case{ID: "tagiface", Run: func(ctx *core.Ctx) core.Result { return c10TagIface(ctx) }})
+	cases = append(cases, core.Case{ID: "many-later-calls", Run: func(ctx *core.Ctx) core.Result { return c10ManyLaterCalls(ctx) }})
 	cases = append(cases, core.Case{ID: "unmount-after-complete-reply", Run: func(ctx *core.Ctx) core.Result { return c10UnmountAfterReply(ctx) }})
 	return cases
 }
@@ -1208,3 +1210,112 @@ func c10UnmountAfterReply(ctx *core.Ctx) core.Result {
 }
 
 func withTag(m *wire.Msg, tag uint16) *wire.Msg { m.Tag = tag; return m }
+
+// c10ManyLaterCalls: "every later call returns an error" — also the 70 000th one. After the connection failed, calls
+// of every kind are issued one after the other; each must return an error. A caller that makes no progress for 5 s
+// while parked in the client library (two goroutine dumps) is a call that never returns.
+func c10ManyLaterCalls(ctx *core.Ctx) core.Result {
+	var res core.Result
+	for _, how := range []string{"close", "unmount"} {
+		s, err := connect(1024, true, true)
+		if err != nil {
+			res.Inconclusive = "c10: " + err.Error()
+			return res
+		}
+		if msg := s.do(call{kind: "read", fidn: 5, offset: 1, count: 9}); msg != "" {
+			res.Inconclusive = "c10 later calls: the connection does not work: " + msg
+			s.close()
+			return res
+		}
+		switch how {
+		case "close":
+			s.p.Srv.Close()
+		case "unmount":
+			s.c.Unmount()
+		}
+		// the failure has been noticed when a call fails
+		noticed := waitUntil(func() bool { _, e := s.c.Stat(s.fid(6)); return e != nil }, W)
+		if !noticed {
+			res.Inconclusive = "c10 later calls: the failure was never noticed"
+			s.close()
+			return res
+		}
+		const N = 70000
+		var progress, succeeded int64
+		fin := make(chan struct{})
+		base := stuckDump()
+		go func() {
+			defer close(fin)
+			f := s.fid(7)
+			for i := 0; i < N; i++ {
+				var e error
+				switch i % 5 {
+				case 0:
+					_, e = s.c.Stat(f)
+				case 1:
+					_, e = s.c.Read(f, 0, 10)
+				case 2:
+					_, e = s.c.Write(f, []byte("x"), 0)
+				case 3:
+					e = s.c.Open(f, 0)
+				case 4:
+					e = s.c.Remove(f)
+				}
+				if e == nil {
+					atomic.AddInt64(&succeeded, 1)
+				}
+				atomic.AddInt64(&progress, 1)
+			}
+		}()
+		last, idle := int64(-1), 0
+		stuck := ""
+	watch:
+		for {
+			select {
+			case <-fin:
+				break watch
+			case <-time.After(time.Second):
+			}
+			ctx.Beat()
+			now := atomic.LoadInt64(&progress)
+			if now != last {
+				last, idle = now, 0
+				continue
+			}
+			idle++
+			if idle >= 5 {
+				d1 := stuckDump()
+				time.Sleep(500 * time.Millisecond)
+				d2 := stuckDump()
+				for id, st := range d1 {
+					if _, old := base[id]; old {
+						continue
+					}
+					if st2, ok := d2[id]; ok && firstLine(st2) == firstLine(st) && atomic.LoadInt64(&progress) == now {
+						stuck = st2
+					}
+				}
+				if stuck != "" {
+					break watch
+				}
+				if idle > 60 {
+					res.Inconclusive = "c10 later calls: no progress, and no caller parked in the client library"
+					break watch
+				}
+			}
+		}
+		res.Evals += int(atomic.LoadInt64(&progress))
+		if stuck != "" {
+			res.Violate("C10;hang;later-call;"+how, fmt.Sprintf("after the connection failed (%s), later call number %d never returned", how, last+1), stuck)
+		}
+		if n := atomic.LoadInt64(&succeeded); n > 0 {
+			res.Violate("C10;later-call-succeeded;"+how, fmt.Sprintf("%d calls issued after the connection failed returned success", n), nil)
+		}
+		res.Sig("many-later-calls|" + how)
+		if stuck == "" {
+			s.close()
+		}
+	}
+	res.Sample(map[string]interface{}{"scenario": "70 000 calls after the connection failed", "ways": "peer closes, Unmount"})
+	return res
+}
